@@ -64,6 +64,7 @@ class ModuleTranslator:
         self.deps = set()
         self.report = {}
         self.in_progress = set()
+        self.dispatchers = {}
 
     # -------------------------------------------------------------- imports / globals
     def note_import(self, node):
@@ -130,8 +131,123 @@ class ModuleTranslator:
         """module that defines the global `name` visible in this module (by identity search)"""
         return self.name
 
+    def cache_globals(self):
+        if not hasattr(self, '_cache_globals'):
+            out = set()
+            for fn in self.funcs.values():
+                for node in ast.walk(fn):
+                    if isinstance(node, ast.Subscript) and isinstance(node.ctx, ast.Store) and isinstance(node.value, ast.Name):
+                        n = node.value.id
+                        if isinstance(getattr(self.mod, n, None), dict) and n not in {a.arg for a in fn.args.args} and n not in assigned_names_of(fn):
+                            out.add(n)
+            self._cache_globals = out
+        return self._cache_globals
+
+    def dispatch_call(self, mcode, meth, e, ft):
+        """call `meth` on a module-typed value: a generated local dispatch function over the module universe"""
+        uni = self.module_universe()
+        sigs = []
+        for mn in uni:
+            mod = sys.modules.get(mn) or importlib.import_module(mn)
+            obj = getattr(mod, meth, None)
+            if isinstance(obj, types.FunctionType):
+                sig = self.ctx.sigs.get((obj.__module__, obj.__name__))
+                if sig is None:
+                    raise Unsupported('dispatch target %s.%s unmodelled' % (mn, meth))
+                self.ctx.ensure_translated(sig)
+                if not sig.ok:
+                    raise Unsupported('dispatch target %s.%s not translated' % (mn, meth))
+                sigs.append((mn, sig))
+        if not sigs:
+            raise Unsupported('no dispatch targets for .' + meth)
+        # arguments as given at the call site (positional only; defaults filled per target)
+        if e.keywords:
+            raise Unsupported('keywords in dispatched call')
+        given = [ft.expr(a) for a in e.args]
+        rt = None
+        for _, s_ in sigs:
+            rt = unify(rt, s_.rtype)
+        if rt == 'any':
+            raise Unsupported('dispatch result types differ: %s' % sorted({s_.rtype for _, s_ in sigs}))
+        key = (meth, tuple(t for _, t in given))
+        if key not in self.dispatchers:
+            name = 'dispatch_%s_%d' % (meth, len(self.dispatchers))
+            params = ' '.join('(a%d : %s)' % (i, lean_type(t)) for i, (_, t) in enumerate(given))
+            today = any(s.needs_today for _, s in sigs)
+            lines = ['def %s %s(m : String) %s : R %s :=' % (name, '(today__ : Date) ' if today else '', params, par(lean_type(rt))), '  match m with']
+            for mn, sig in sigs:
+                args = []
+                for i, (pname, pt) in enumerate(zip(sig.params, sig.ptypes)):
+                    if i < len(given):
+                        if given[i][1] != pt:
+                            raise Unsupported('dispatch argument type %s vs %s' % (given[i][1], pt))
+                        args.append('a%d' % i)
+                    elif pname in sig.defaults:
+                        args.append(par(lean_value(sig.defaults[pname], pt)))
+                    else:
+                        raise Unsupported('dispatch arity')
+                if len(given) > len(sig.params):
+                    raise Unsupported('dispatch arity')
+                call = '%s%s %s' % (sig.lean_name, ' today__' if sig.needs_today else '', ' '.join(args))
+                if sig.rtype != rt:
+                    call = 'do let r__ ← %s; pure %s' % (call, par(ft.coerce('r__', sig.rtype, rt)))
+                lines.append('  | "%s" => %s' % (mn, call))
+                if sig.modname != self.name:
+                    self.deps.add(sig.modname)
+                ft.sig.calls.add('%s:%s' % (sig.modname, sig.name))
+            lines.append('  | _ => Py.raise .attributeError')
+            self.dispatchers[key] = (name, today, '\n'.join(lines))
+            self.outputs.append('\n'.join(lines))
+        name, today, _ = self.dispatchers[key]
+        if today:
+            ft.uses_today = True
+        return ('(← Gen.%s.%s%s %s%s)' % (self.ns, name, ' today__' if today else '', par(mcode), ''.join(' ' + par(v) for v, _ in given)), rt)
+
+    def module_universe(self):
+        """all modules that can flow into module-typed values of this file"""
+        if not hasattr(self, '_universe'):
+            uni = []
+            def add(v):
+                if isinstance(v, types.ModuleType):
+                    if v.__name__ not in uni:
+                        uni.append(v.__name__)
+                elif isinstance(v, (tuple, list, set, frozenset)):
+                    for x in v:
+                        add(x)
+                elif isinstance(v, dict):
+                    for x in v.values():
+                        add(x)
+            for k, v in vars(self.mod).items():
+                if k.startswith('__'):
+                    continue
+                if isinstance(v, types.ModuleType):
+                    # only modules that are used as values (not `from stdnum import luhn` + luhn.validate)
+                    continue
+                add(v)
+            for node in ast.walk(self.tree):
+                if isinstance(node, ast.Name) and isinstance(node.ctx, ast.Load):
+                    v = getattr(self.mod, node.id, None)
+                    if isinstance(v, types.ModuleType) and v.__name__.startswith('stdnum.') and not self._is_call_prefix(node):
+                        add(v)
+                if isinstance(node, ast.Call) and isinstance(node.func, ast.Name) and node.func.id == 'get_cc_module' and len(node.args) == 2 \
+                        and isinstance(node.args[1], ast.Constant):
+                    for cc, mn in self.ctx.cc_table(node.args[1].value):
+                        if mn not in uni:
+                            uni.append(mn)
+            self._universe = uni
+        return self._universe
+
+    def _is_call_prefix(self, name_node):
+        # `mod.func(...)` / `mod.CONST` uses of an imported module are not module *values*
+        for node in ast.walk(self.tree):
+            if isinstance(node, ast.Attribute) and node.value is name_node:
+                return True
+        return False
+
     def global_name(self, name, ft):
         obj = self.resolve(name)
+        if isinstance(obj, types.ModuleType):
+            return ('"%s"' % obj.__name__, 'module')
         if isinstance(obj, types.FunctionType):
             raise Unsupported('function value ' + name)
         if isinstance(obj, type):
@@ -175,6 +291,15 @@ class ModuleTranslator:
 
     def call_global(self, n, e, ft):
         obj = self.resolve(n)
+        if isinstance(obj, types.FunctionType) and obj.__module__ == 'stdnum.util' and obj.__name__ == 'get_cc_module':
+            if len(e.args) == 2 and isinstance(e.args[1], ast.Constant) and isinstance(e.args[1].value, str) and not e.keywords:
+                v, t = ft.expr(e.args[0])
+                if t != 'str':
+                    raise Unsupported('get_cc_module argument type')
+                self.ctx.cc_table(e.args[1].value)
+                self.deps.add('__ccmods__')
+                return ('(Gen.ccmods.get_cc_module_%s %s)' % (e.args[1].value, par(v)), 'opt[module]')
+            raise Unsupported('get_cc_module with non-literal name')
         if isinstance(obj, types.FunctionType):
             return self.user_call(self.sig_of_function(obj), e, ft)
         raise Unsupported('call of %s (%s)' % (n, type(obj).__name__))
@@ -252,16 +377,57 @@ class ModuleTranslator:
             sig.done = True
 
     def emit(self):
-        imports = sorted(self.ctx.mods[d].ns for d in self.deps if d != self.name)
+        imports = sorted(('ccmods' if d == '__ccmods__' else self.ctx.mods[d].ns) for d in self.deps if d != self.name)
         head = 'import PyRt\n' + ''.join('import Gen.%s\n' % i for i in imports)
         head += 'open Py\nset_option linter.unusedVariables false\nnamespace Gen.%s\n\n' % self.ns
         body = '\n\n'.join(list(self.consts.values()) + self.outputs)
         return head + body + '\n\nend Gen.%s\n' % self.ns
 
 
+def assigned_names_of(fn):
+    out = set()
+    for n in ast.walk(fn):
+        if isinstance(n, ast.Name) and isinstance(n.ctx, ast.Store):
+            out.add(n.id)
+    return out
+
+
 class Context(Ctx):
     def __init__(self, profile):
         super().__init__(profile)
+        self.cc_tables = {}
+        self.extra_today = set()
+
+    def cc_table(self, attr):
+        """[(package name, module name)] for which util.get_cc_module(package, attr) is a module (evaluated)"""
+        if attr not in self.cc_tables:
+            import pkgutil
+            import stdnum
+            from stdnum.util import get_cc_module
+            rows = []
+            for _l, name, _ispkg in pkgutil.iter_modules(stdnum.__path__):
+                try:
+                    r = get_cc_module(name, attr)
+                except Exception:
+                    r = None
+                if isinstance(r, types.ModuleType):
+                    rows.append((name, r.__name__))
+            self.cc_tables[attr] = rows
+        return self.cc_tables[attr]
+
+    def emit_ccmods(self):
+        lines = ['import PyRt', 'open Py', 'namespace Gen.ccmods', '',
+                 '/-- `stdnum.util.get_cc_module(cc, name)` tabulated by evaluating it on every sub-package of the',
+                 'current tree (module values are represented by their names) -/',
+                 'def norm (cc : Str) : Str :=',
+                 '  let cc := Py.lower cc',
+                 '  if cc == Py.ofString "in" || cc == Py.ofString "is" || cc == Py.ofString "if" then cc ++ [95] else cc', '']
+        for attr, rows in sorted(self.cc_tables.items()):
+            lines.append('def table_%s : List (Str × String) := [%s]' % (attr, ', '.join('(%s, "%s")' % ('[' + ', '.join(str(ord(c)) for c in cc) + ']', mn) for cc, mn in rows)))
+            lines.append('def get_cc_module_%s (cc : Str) : Option String := Py.dictGet? table_%s (norm cc)' % (attr, attr))
+            lines.append('')
+        lines.append('end Gen.ccmods')
+        return '\n'.join(lines) + '\n'
 
     def add_module(self, name):
         try:
@@ -325,7 +491,7 @@ class Context(Ctx):
                     if isinstance(obj, types.FunctionType):
                         callees.add((obj.__module__, obj.__name__))
             edges[(modname, fname)] = callees
-        need = set(direct)
+        need = set(direct) | set(getattr(self, 'forced_today', ()))
         changed = True
         while changed:
             changed = False
@@ -392,10 +558,16 @@ def main():
             if old.startswith('profile-'):
                 os.remove(os.path.join(common.WORK, old))
         json.dump(profile, open(pcache, 'w'))
-    ctx = Context(profile)
-    for n in names:
-        ctx.add_module(n)
-    ctx.run()
+    extra = set()
+    for _attempt in range(4):
+        ctx = Context(profile)
+        ctx.forced_today = set(extra)
+        for n in names:
+            ctx.add_module(n)
+        ctx.run()
+        if ctx.extra_today <= extra:
+            break
+        extra |= ctx.extra_today
     gen_dir = os.path.join(args.out, 'Gen')
     written = 0
     keep = set()
@@ -403,7 +575,10 @@ def main():
         path = os.path.join(gen_dir, mt.ns + '.lean')
         keep.add(os.path.abspath(path))
         written += write_if_changed(path, mt.emit())
-    root = ''.join('import Gen.%s\n' % ctx.mods[n].ns for n in ctx.mods)
+    ccpath = os.path.join(gen_dir, 'ccmods.lean')
+    keep.add(os.path.abspath(ccpath))
+    written += write_if_changed(ccpath, ctx.emit_ccmods())
+    root = 'import Gen.ccmods\n' + ''.join('import Gen.%s\n' % ctx.mods[n].ns for n in ctx.mods)
     written += write_if_changed(os.path.join(args.out, 'Gen.lean'), root)
     if os.path.isdir(gen_dir):
         for fn in os.listdir(gen_dir):
